@@ -129,12 +129,11 @@ PROPS["C06"] = {
     "outside": "limit = 0 with a non-empty input (Kani artefact F13: zero-capacity vector + symbolic element), stores of more than 7 "
                "candidates, the wiring of Store::search itself, the index cap (C18)",
     "lemmas": [LS_LEMMA,
-               {"id": "TM-local", "text": "the verdict for one record (match vectors, all nine scores, filter decision) computed by the real "
-                                          "text_match/score/hit_matches after an earlier call on ANOTHER record and query equals the verdict "
-                                          "computed first thing: the thread-local scratch (RMATCHES, QMATCHES, distance matrix, Jaccard buffers) "
+               {"id": "TM-local", "text": "the match vectors computed by the real text_match for one record after an earlier call on ANOTHER record "
+                                          "and query equal those computed first thing (scores and the filter are pure functions of them): the thread-local scratch (RMATCHES, QMATCHES, distance matrix, Jaccard buffers) "
                                           "carries nothing over",
                 "bounds": "title/query shapes of the instance names (1-2 letter words), all contents symbolic",
-                "opts": {"unwind": 7, "timeout": 2400, "checks": "functional", "mem_gb": 16},
+                "opts": {"unwind": 7, "timeout": 2400, "checks": "functional", "mem_gb": 24},
                 "quick": ["tm_local_r1_q1"], "thorough": ["tm_local_r2_q2"]}],
 }
 PROPS["C07"] = {
@@ -181,6 +180,16 @@ TM_STRUCT = {"id": "TM-structure", "text": "REAL text_match + score + hit_matche
              "opts": TM_OPTS,
              "quick": ["tm_r1_q1", "tm_r2_q2", "tm_r2_q0", "tm_r0_q2"], "thorough": ["tm_r2_q2u", "tm_r3_q3", "tm_r3_q3u", "tm_r11_q1", "tm_r11_q11"]}
 
+SPLIT_SAFE = {"id": "SPLIT-safe", "text": "for ANY joined match permitted by the matcher's contract over two title words (l1 letters, gap, l2 letters): the real "
+                                         "WordView::join has the right extent and stem; the real WordMatch::split returns parts aligned with the two words, the "
+                                         "first covering word 1, the second a non-empty prefix of word 2, typo shares within [0, typos]; and the real "
+                                         "score_chars_up / tails / trans / words / offset / fin on the two parts do not overflow (CBMC overflow checks) and "
+                                         "yield small numbers",
+              "bounds": "(l1,gap,l2) from the instance names, total <= 11 characters; span, typo count (multiples of 0.5 up to 3.5), fin flag symbolic",
+              "opts": {"unwind": 13, "timeout": 1200, "mem_gb": 10},
+              "quick": ["split_1_1_1", "split_1_1_2", "split_2_1_1", "split_2_1_2", "split_2_1_3"],
+              "thorough": ["split_1_1_5", "split_3_1_3", "split_2_2_2", "split_4_1_4", "split_1_1_8", "split_5_1_5"]}
+
 PROPS["C03"] = {
     "assumptions": WORD_ASSUME + ["glue (DESIGN §5 C03): record listed by the index (TRI-prefix + index completeness, which is outside reach) -> "
                                   "word matched (WM-prefix) -> kept by text_match and the filter (TM-structure at one-word shapes) -> not truncated (LS-topk)"],
@@ -203,13 +212,13 @@ PROPS["C09"] = {
     "assumptions": WORD_ASSUME + ["glue: highlight() emits one marker pair per title match from word.slice.0 to word.slice.0 + span (15 lines, "
                                   "not solver-decided: String building with symbolic characters does not finish, DESIGN F11)"],
     "outside": "the rendered string itself; titles of more than two words; words longer than 3 letters",
-    "lemmas": [TM_STRUCT],
+    "lemmas": [TM_STRUCT, dict(SPLIT_SAFE, id="SPLIT-structure")],
 }
 PROPS["C01"] = {
     "assumptions": WORD_ASSUME,
     "outside": "the tokeniser and normalisation on arbitrary Unicode, Store/registry level, highlight string building, words longer than 3 letters, "
                "more than two words per text; 'no hang' only as termination within the unwinding bounds",
-    "lemmas": [dict(TM_STRUCT, id="TM-safe"), dict(WM_CONTRACT, id="WM-safe"),
+    "lemmas": [dict(TM_STRUCT, id="TM-safe"), dict(WM_CONTRACT, id="WM-safe"), SPLIT_SAFE,
                {"id": "K-safe", "text": "distance / Jaccard / LimitSort kernels: no panic, no overflow, all memory accesses in range (all CBMC checks selected)",
                 "bounds": "kernel shapes as listed", "opts": {"unwind": 10, "timeout": 1500, "unwindset": DL_UNWINDSET},
                 "quick": ["dl_laws_2_2_2", "dl_hist_2_2_2", "jac_fresh_2_3", "ls_topk_3_2"], "thorough": ["dl_laws_3_3_3", "jac_fresh_3_3", "ls_topk_7_3"]}],
